@@ -14,12 +14,20 @@ Fixpoint wfk (n : node) : bool :=
                   match l with [] => true | kv :: t => wfk (snd kv) && go t end) kvs
   | _ => true
   end.
-(* no mapping reached through mappings carries a "$patch" key *)
+(* is this mapping a "$patch: delete" directive *)
+Definition is_delete (kvs : list (string * node)) : bool :=
+  match find_field smp_key kvs with
+  | Some x => String.eqb (node_value x) "delete"
+  | None => false
+  end.
+(* the mappings reached through mappings carry no "$patch" key -- except "$patch: delete", below which nothing is
+   looked at *)
 Fixpoint nodir (n : node) : bool :=
   match n with
-  | Map kvs => negb (str_in smp_key (keys kvs)) &&
-               (fix go (l : list (string * node)) : bool :=
-                  match l with [] => true | kv :: t => nodir (snd kv) && go t end) kvs
+  | Map kvs => is_delete kvs ||
+               (negb (str_in smp_key (keys kvs)) &&
+                (fix go (l : list (string * node)) : bool :=
+                   match l with [] => true | kv :: t => nodir (snd kv) && go t end) kvs)
   | _ => true
   end.
 Definition ofrag (f : node -> bool) (o : option node) : bool :=
@@ -42,13 +50,14 @@ Proof.
   destruct (String.eqb k0 k); [inv F; auto|eauto].
 Qed.
 
-Lemma nodir_map kvs : nodir (Map kvs) = true ->
+Lemma nodir_map kvs : nodir (Map kvs) = true -> is_delete kvs = false ->
   find_field smp_key kvs = None /\ forall k v, find_field k kvs = Some v -> nodir v = true.
 Proof.
-  cbn [nodir]. intros H. apply Bool.andb_true_iff in H. destruct H as [H1 H2].
+  cbn [nodir]. intros H Hd. rewrite Hd in H. cbn [orb] in H.
+  apply Bool.andb_true_iff in H. destruct H as [H1 H2].
   split.
   - apply Bool.negb_true_iff in H1. rewrite find_in_keys in H1. destruct (find_field smp_key kvs); congruence.
-  - clear H1. induction kvs as [|[k0 v0] t IH]; cbn; intros k v F; [discriminate|].
+  - clear H1 Hd. induction kvs as [|[k0 v0] t IH]; cbn; intros k v F; [discriminate|].
     apply Bool.andb_true_iff in H2. destruct H2 as [Ha Hb].
     destruct (String.eqb k0 k); [inv F; auto|eauto].
 Qed.
@@ -250,6 +259,44 @@ Section Idem.
       exists 1. eexists. split; [intros sc' g' Hg; destruct g' as [|g']; [lia|]; cbn; unfold walk_map; cbn; reflexivity|reflexivity].
   Qed.
 
+  (* "$patch: delete" on a mapping clears, whatever the target holds; applied to nothing it gives nothing *)
+  Lemma delete_patch_clears f sc alias tv pk r :
+    alias = None \/ alias = Some 1 -> is_delete pk = true ->
+    W (S f) sc alias [tv; Some (Map pk)] = Ok r -> fval nonstr r tv = None.
+  Proof.
+    intros Ha Hd H. unfold is_delete in Hd.
+    destruct (find_field smp_key pk) as [x|] eqn:F; [|discriminate]. apply String.eqb_eq in Hd.
+    assert (Hdet : determine_smp (Some (Map pk)) = Ok (SmpDelete, Some (Map (remove_first smp_key pk)))).
+    { cbn [determine_smp]. rewrite F, Hd. reflexivity. }
+    destruct tv as [[tt ts tx|tk|tes]|].
+    - destruct (is_null (Scalar tt ts tx)) eqn:En.
+      + destruct tt; try discriminate.
+        destruct Ha as [-> | ->]; cbn [walk first_kind o_null is_null kind_of all_valid forallb kind_eqb orb andb] in H;
+          unfold walk_map in H; cbn [v_map merger] in H; unfold m2_visit_map in H;
+          cbn [dest_of origin_of o_null is_null] in H; rewrite Hdet in H; cbn in H; inv H; reflexivity.
+      + exfalso. destruct tt; try discriminate; destruct Ha as [-> | ->]; cbn in H; discriminate.
+    - destruct Ha as [-> | ->]; cbn [walk first_kind o_null is_null kind_of all_valid forallb kind_eqb orb andb] in H;
+        unfold walk_map in H; cbn [v_map merger] in H; unfold m2_visit_map in H;
+        cbn [dest_of origin_of o_null is_null tagged_null] in H; rewrite Hdet in H; cbn in H; inv H; reflexivity.
+    - exfalso. destruct Ha as [-> | ->]; cbn in H; discriminate.
+    - destruct Ha as [-> | ->]; cbn [walk first_kind o_null is_null kind_of all_valid forallb kind_eqb orb andb] in H;
+        unfold walk_map in H; cbn [v_map merger] in H; unfold m2_visit_map in H;
+        cbn [dest_of origin_of o_null is_null] in H; rewrite Hdet in H; cbn in H; inv H; reflexivity.
+  Qed.
+
+  Lemma second_delete_patch pk : is_delete pk = true -> second_ok None (Some (Map pk)).
+  Proof.
+    intros Hd. unfold is_delete in Hd.
+    destruct (find_field smp_key pk) as [x|] eqn:F; [|discriminate]. apply String.eqb_eq in Hd.
+    assert (Hdet : determine_smp (Some (Map pk)) = Ok (SmpDelete, Some (Map (remove_first smp_key pk)))).
+    { cbn [determine_smp]. rewrite F, Hd. reflexivity. }
+    exists 1. exists None. split; [|reflexivity].
+    intros sc' g' Hg. destruct g' as [|g']; [lia|].
+    cbn [walk first_kind o_null is_null kind_of all_valid forallb kind_eqb orb andb].
+    unfold walk_map. cbn [v_map merger]. unfold m2_visit_map. cbn [dest_of origin_of o_null].
+    rewrite Hdet. cbn. reflexivity.
+  Qed.
+
   (* ---- finitely many second runs share one fuel ---- *)
   Lemma uniform_fuel (Q : string -> nat -> option wres -> Prop) l :
     (forall k g g' r, Q k g r -> g <= g' -> Q k g' r) ->
@@ -308,7 +355,9 @@ Section Idem.
     (* the fields of the patch *)
     assert (Hpsub : forall k, ofrag wfk (field_of k pv) = true /\ ofrag nodir (field_of k pv) = true).
     { intros k. destruct pv as [[| pk |]|]; cbn [field_of]; try (split; reflexivity).
-      cbn in Hwp, Hnp. destruct (wfk_map _ Hwp) as [_ H1]. destruct (nodir_map _ Hnp) as [_ H2].
+      cbn [ofrag] in Hwp, Hnp. destruct (wfk_map _ Hwp) as [_ H1].
+      assert (Hnd0 : is_delete pk = false) by (unfold is_delete; cbn in Hplain; rewrite Hplain; reflexivity).
+      destruct (nodir_map _ Hnp Hnd0) as [_ H2].
       split; apply ofrag_field; auto. }
     (* every walked key: the second walk of that key is a fixpoint *)
     assert (Hkeys : forall k, In k names ->
@@ -369,7 +418,11 @@ Section Idem.
         rewrite (null_patch_clears _ _ _ _ _ _ _ Ha H). apply second_null_patch.
       + destruct (scalar_patch _ _ _ _ _ _ _ _ Ha En H) as [sX ->]. apply second_scalar_patch; auto.
     - (* mapping in the patch *)
-      cbn in Hwp, Hnp. destruct (nodir_map _ Hnp) as [Hpp _].
+      cbn [ofrag] in Hwp, Hnp.
+      destruct (is_delete pk) eqn:Ed.
+      { (* "$patch: delete": the target's value goes, and stays gone *)
+        rewrite (delete_patch_clears _ _ _ _ _ _ Ha Ed H). apply second_delete_patch; auto. }
+      destruct (nodir_map _ Hnp Ed) as [Hpp _].
       assert (Hplain : plain_patch (Some (Map pk))) by exact Hpp.
       destruct tv as [[tt ts tx| tk |tes]|].
       + (* scalar target: null -> the patch mapping is added; otherwise a kind error *)
@@ -439,7 +492,9 @@ Section Idem.
 End Idem.
 
 (* ---------- at the level of merge2.Merge ---------- *)
-Definition idem_fragment (p t : node) : bool := is_map p && is_map t && wfk t && wfk p && nodir p.
+Definition idem_fragment (p t : node) : bool :=
+  is_map p && is_map t && wfk t && wfk p && nodir p &&
+  negb (match p with Map pk => is_delete pk | _ => false end).
 
 Section IdemTop.
   Context {Sc : Type}.
@@ -454,12 +509,13 @@ Section IdemTop.
     merge2 sch opts nonstr (Some p) (Some r) = Ok (Some r).
   Proof.
     unfold idem_fragment. intros Hf H.
-    repeat (apply Bool.andb_true_iff in Hf; destruct Hf as [Hf ?]).
+    repeat rewrite Bool.andb_true_iff in Hf. destruct Hf as [[[[[Hmp Hmt] Hwt] Hwp] Hnp] Hdel].
     destruct p as [| pk |]; try discriminate. destruct t as [| tk |]; try discriminate.
     unfold merge2, walk_top in H.
     destruct (walk sch opts nonstr merger (fuel_of [Some (Map tk); Some (Map pk)]) None None
                 [Some (Map tk); Some (Map pk)]) as [ro| | |] eqn:E; cbn in H; try discriminate.
-    assert (Hpp : plain_patch (Some (Map pk))) by (destruct (nodir_map _ H0); auto).
+    apply Bool.negb_true_iff in Hdel.
+    assert (Hpp : plain_patch (Some (Map pk))) by (destruct (nodir_map _ Hnp Hdel); auto).
     (* the first result is a mapping, updated in place *)
     unfold fuel_of in E.
     set (n0 := fold_right (fun (s : option node) (a : nat) => depth_o s + a) 0 [Some (Map tk); Some (Map pk)]) in E.
@@ -467,7 +523,7 @@ Section IdemTop.
     match type of E with bind ?X _ = _ => destruct X as [d| | |] eqn:Ew; cbn [bind] in E; try discriminate end.
     inv E. cbn in H. inv H.
     pose proof Ew as Ew0.
-    destruct (wfk_map _ H2) as [Hnk _].
+    destruct (wfk_map _ Hwt) as [Hnk _].
     destruct (walk_fields_map sch nonstr _ _ _ _ _ (nodup_sort_uniq _) _ _ Hnk Ew0) as [kvs' [-> _]].
     (* idempotence of the walk *)
     assert (Hs : second_ok sch opts nonstr (Some (Map kvs')) (Some (Map pk))).
@@ -497,16 +553,19 @@ Section IdemTop.
   Qed.
 End IdemTop.
 
-(* non-vacuity: a nested patch with a null, an added mapping, a replaced list, on a target with an unmentioned branch *)
+(* non-vacuity: a nested patch with a null, an added mapping (with a null inside), a replaced list and a
+   "$patch: delete", on a target with unmentioned branches and a YAML-1.1-ambiguous string *)
 Definition idem_t : node :=
   Map [("kind", Scalar TStr SPlain "Foo");
        ("spec", Map [("a", Scalar TInt SPlain "1"); ("b", Scalar TStr SPlain "no");
                      ("m", Map [("x", Scalar TInt SPlain "1"); ("y", Scalar TInt SPlain "2")]);
-                     ("l", Seq [Scalar TStr SPlain "p"])])].
+                     ("l", Seq [Scalar TStr SPlain "p"]);
+                     ("d", Map [("keep", Scalar TInt SPlain "1")])])].
 Definition idem_p : node :=
   Map [("spec", Map [("a", Scalar TNull SPlain "null"); ("m", Map [("x", Scalar TStr SDouble "7")]);
                      ("l", Seq [Scalar TStr SPlain "q"; Scalar TStr SPlain "r"]);
-                     ("n", Map [("k", Scalar TBool SPlain "true"); ("gone", Scalar TNull SPlain "null")])])].
+                     ("n", Map [("k", Scalar TBool SPlain "true"); ("gone", Scalar TNull SPlain "null")]);
+                     ("d", Map [("$patch", Scalar TStr SPlain "delete")])])].
 Example idem_example :
   idem_fragment idem_p idem_t = true /\
   exists r, merge2 schemaless kustomize_opts (fun s => String.eqb s "no") (Some idem_p) (Some idem_t) = Ok (Some r) /\
